@@ -30,7 +30,7 @@ type aolGen struct {
 	clean   bool // generate only well-formed fields, natural signers, small fee
 }
 
-var aolTopicNames = []string{"a", "ab", "a.b", "A", "a-", "abc", strings.Repeat("t", 70)}
+var aolTopicNames = []string{"a", "ab", "a.b", "A", "a-", "a.b.c", "abc", strings.Repeat("t", 70)}
 var aolBadTopics = []string{"", "a b", "a/b", strings.Repeat("t", 71), "é", "a\n", strings.Repeat("x", 256), strings.Repeat("t", 255), strings.Repeat("t", 300),
 	strings.Repeat("t", 5000), strings.Repeat("t", 5001)}
 
@@ -151,7 +151,18 @@ func (g *aolGen) msg() (string, []int) {
 	case k < 15:
 		o := g.signerAddr(94)
 		t := g.topic()
-		if len(g.topics) > 0 && g.r.Chance(30) { // create an existing topic again
+		if len(g.topics) > 0 && g.r.Chance(25) { // a dotted sub-name of a topic the signer already owns ("a" -> "a.b")
+			var mine []string
+			for _, kk := range sortedKeys(g.topics) {
+				p := strings.SplitN(kk, "/", 2)
+				if p[0] == o && len(p[1]) < 60 {
+					mine = append(mine, p[1])
+				}
+			}
+			if len(mine) > 0 {
+				t = pick(g.r, mine) + "." + pick(g.r, []string{"b", "c", "x1"})
+			}
+		} else if len(g.topics) > 0 && g.r.Chance(30) { // create an existing topic again
 			kk := pick(g.r, sortedKeys(g.topics))
 			p := strings.SplitN(kk, "/", 2)
 			o, t = p[0], p[1]
@@ -172,6 +183,36 @@ func (g *aolGen) msg() (string, []int) {
 		return joinSp("aol.DeleteWriter", toks(t), toks(w), toks(o)), []int{idx(o)}
 	case k < 82:
 		o, t, w := g.someWriter()
+		if g.r.Chance(20) {
+			// a writer listed on one topic of the owner appends to ANOTHER topic of the same owner (a sibling, a name that
+			// extends or shortens the first, a dotted parent or child): the writer lists are per topic
+			var others []string
+			for _, kk := range sortedKeys(g.topics) {
+				p := strings.SplitN(kk, "/", 2)
+				if p[0] == o && p[1] != t {
+					others = append(others, p[1])
+				}
+			}
+			var related []string
+			for _, t2 := range others {
+				if strings.HasPrefix(t2, t) || strings.HasPrefix(t, t2) {
+					related = append(related, t2)
+				}
+			}
+			var children []string
+			for _, t2 := range others {
+				if strings.HasPrefix(t2, t+".") {
+					children = append(children, t2)
+				}
+			}
+			if len(children) > 0 && g.r.Chance(60) {
+				t = pick(g.r, children)
+			} else if len(related) > 0 && g.r.Chance(70) {
+				t = pick(g.r, related)
+			} else if len(others) > 0 {
+				t = pick(g.r, others)
+			}
+		}
 		fp := ""
 		sg := []int{idx(w)}
 		if g.r.Chance(30) {
@@ -243,6 +284,10 @@ func genAolHistory(r *RNG, nBlocks int) []string {
 	burstAt := -1
 	if r.Chance(20) && nBlocks > 4 {
 		burstAt = 3 + r.Intn(nBlocks-4)
+	}
+	topicBurstAt := -1
+	if r.Chance(15) && nBlocks > 3 {
+		topicBurstAt = 2 + r.Intn(nBlocks-3)
 	}
 	var burstTopic []string
 	for b := 0; b < nBlocks; b++ {
@@ -350,6 +395,19 @@ func genAolHistory(r *RNG, nBlocks int) []string {
 					g.add("ENDTX")
 				}
 				burstTopic = p
+			}
+		}
+		if b == topicBurstAt {
+			// one owner creates a dozen more topics than the usual handful (and a writer on one of them): anything that
+			// depends on how many topics an owner has — a quota, a charge, a counter width — is crossed here
+			oi := r.Intn(nAcc)
+			n := 11 + r.Intn(5)
+			for j := 0; j < n; j++ {
+				name := fmt.Sprintf("n%02d", j)
+				g.add("TX %s %x", toks(feeDenom)+":1000", []byte(g.accts[oi].Addr))
+				g.add("M aol.CreateTopic %s %s %s", toks(name), toks(""), toks(g.addrStr(oi)))
+				g.add("ENDTX")
+				g.topics[g.addrStr(oi)+"/"+name] = true
 			}
 		}
 		doExport := r.Chance(12) || (burstTopic != nil && b == burstAt+1)
